@@ -31,6 +31,20 @@ def dominators(fn, post=False, ignore_abort=False):
         start = fn.entry
         pred = fn.preds()
     allb = set(blocks)
+    # blocks that cannot be reached from the start (clang keeps e.g. the block after an endless loop) dominate nothing and
+    # must not take part: as a predecessor such a block would empty the intersection of everything behind it
+    succ_of = {}
+    for b in blocks:
+        for p in pred[b]:
+            succ_of.setdefault(p, []).append(b)
+    live = set()
+    st = [start]
+    while st:
+        x = st.pop()
+        if x in live:
+            continue
+        live.add(x)
+        st.extend(succ_of.get(x, ()))
     dom = {b: set(allb) for b in blocks}
     dom[start] = {start}
     changed = True
@@ -39,7 +53,12 @@ def dominators(fn, post=False, ignore_abort=False):
         for b in blocks:
             if b == start:
                 continue
-            ps = [dom[p] for p in pred[b]]
+            if b not in live:
+                if dom[b] != {b}:
+                    dom[b] = {b}
+                    changed = True
+                continue
+            ps = [dom[p] for p in pred[b] if p in live]
             new = set.intersection(*ps) if ps else set()
             new = new | {b}
             if new != dom[b]:
